@@ -43,7 +43,7 @@ def c16Families (seen : List String) : String :=
   let rows := TT.Gen.docFamilies.map fun (name, typ, labels) =>
     let ls := labels.map fun (l, vals) => s!"{l}={",".intercalate (vals.filter (seen.contains ·))}"
     s!"{name}:{typ}:{";".intercalate ls}"
-  " ".intercalate rows
+  " ".intercalate (rows.toArray.qsort (· < ·)).toList
 
 def c16 (toks : List String) : String :=
   match toks with
